@@ -59,3 +59,39 @@ func VH_gcs_empty() {
 	vAssert(err == nil && !ok, "the empty set matches nothing")
 	vReach("end")
 }
+
+// C20(3'): the serialised forms carry N as a Bitcoin CompactSize and round trip at its size boundaries: filters of
+// N = 1, 127, 128, 252, 253 and 300 elements (concrete 2-byte elements, so SipHash is evaluated exactly):
+// NBytes == CompactSize(N) || filter bytes, FromNBytes(NBytes) reports the same N and matches every element.
+//verif:opts reach=end max_steps=80000000
+func VH_gcs_nbytes_roundtrip_at_size_boundaries() {
+	N := []int{1, 127, 128, 252, 253, 300}[vNondetLen("n", 5)]
+	var key [KeySize]byte
+	for i := range key {
+		key[i] = byte(i + 1)
+	}
+	data := make([][]byte, N)
+	for i := range data {
+		data[i] = []byte{byte(i), byte(i >> 8)}
+	}
+	f, err := BuildGCSFilter(19, 784931, key, data)
+	vAssert(err == nil && int(f.N()) == N, "filter built")
+	nb, err := f.NBytes()
+	vAssert(err == nil, "serialises")
+	raw, _ := f.Bytes()
+	pre := 1
+	if N >= 253 {
+		pre = 3
+		vAssert(nb[0] == 0xfd && int(nb[1])|int(nb[2])<<8 == N, "N >= 253 is written as 0xfd + 16-bit little endian")
+	} else {
+		vAssert(int(nb[0]) == N, "N < 253 is written as one byte")
+	}
+	vAssert(len(nb) == pre+len(raw), "NBytes == CompactSize(N) || filter bytes")
+	g, err := FromNBytes(19, 784931, nb)
+	vAssert(err == nil && int(g.N()) == N, "FromNBytes reads the same N back")
+	for _, i := range []int{0, N / 2, N - 1} {
+		ok, err := g.Match(key, data[i])
+		vAssert(err == nil && ok, "the deserialised filter matches the elements it was built from")
+	}
+	vReach("end")
+}
